@@ -582,6 +582,13 @@ func BuildFromAliasedTable(query *Query, as string, expr sqlparser.SimpleTableEx
 				}
 			default:
 				{
+					// the enclosing document as a table (FROM `<-`, FROM `<-` AS p) is
+					// a row, or a value of the rows, from here on - a member of a
+					// group, a side of a join - so it is taken without the lazy CTEs
+					// stored in it and without the marker of the level above
+					if doc, ok := data.(Map); ok {
+						data = unscoped(doc, false)
+					}
 					array, err := AsArray(data)
 					if err != nil {
 						return err
